@@ -24,6 +24,10 @@ def main(argv=None):
     args = ap.parse_args(argv)
     seed = int(os.environ.get("VERIF_SEED", "0"))
     pid = args.pid
+    import genlm.grammar
+    if not os.path.abspath(genlm.grammar.__file__).startswith(os.path.abspath(report.REPO) + os.sep):
+        print(f"CHECKER-CRASH: genlm imported from {genlm.grammar.__file__}, expected under {report.REPO}")
+        return report.EXIT_CRASH
     try:
         mod = importlib.import_module(f"props.{pid}")
     except ModuleNotFoundError as e:
